@@ -35,7 +35,8 @@ func main() {
 	os.MkdirAll(out, 0o755)
 	replace := map[string]string{filepath.Join(repo, "vsync", "vsync.go"): vs}
 	files, _ := filepath.Glob(filepath.Join(repo, "*.go"))
-	rewritten, goStmts := 0, 0
+	rewritten, goStmts, libYields := 0, 0, 0
+	fineMode := os.Getenv("VERIF_FINE") != "0"
 	for _, f := range files {
 		if strings.HasSuffix(f, "_test.go") {
 			continue
@@ -90,6 +91,32 @@ func main() {
 				}
 			}
 		}
+		yields := 0
+		pkgName := func() string {
+			if syncName != "" {
+				return syncName
+			}
+			return "vsyncpkg"
+		}
+		mkYield := func() ast.Stmt {
+			yields++
+			return &ast.ExprStmt{X: &ast.CallExpr{Fun: &ast.SelectorExpr{X: ast.NewIdent(pkgName()), Sel: ast.NewIdent("LibYield")}}}
+		}
+		if fineMode {
+			ast.Inspect(af, func(nd ast.Node) bool {
+				switch x := nd.(type) {
+				case *ast.FuncDecl:
+					if x.Body != nil {
+						x.Body.List = append([]ast.Stmt{mkYield()}, x.Body.List...)
+					}
+				case *ast.ForStmt:
+					x.Body.List = append([]ast.Stmt{mkYield()}, x.Body.List...)
+				case *ast.RangeStmt:
+					x.Body.List = append([]ast.Stmt{mkYield()}, x.Body.List...)
+				}
+				return true
+			})
+		}
 		ast.Inspect(af, func(nd ast.Node) bool {
 			switch x := nd.(type) {
 			case *ast.BlockStmt:
@@ -105,7 +132,11 @@ func main() {
 			}
 			return true
 		})
-		if n > 0 {
+		if yields > 0 {
+			changed = true
+			libYields += yields
+		}
+		if n > 0 || yields > 0 {
 			changed = true
 			goStmts += n
 			if syncName == "" {
@@ -129,5 +160,5 @@ func main() {
 	}
 	b, _ := json.MarshalIndent(map[string]interface{}{"Replace": replace}, "", " ")
 	os.WriteFile(filepath.Join(out, "overlay.json"), b, 0o644)
-	fmt.Printf("rewrite: %d files rewritten, %d go statements rerouted\n", rewritten, goStmts)
+	fmt.Printf("rewrite: %d files rewritten, %d go statements rerouted, %d LibYield points inserted (function entries, loop bodies)\n", rewritten, goStmts, libYields)
 }
